@@ -49,6 +49,8 @@ type Report struct {
 	samples      []any
 	counters     map[string]*atomic.Int64
 	evaluations  atomic.Int64
+	abort        atomic.Bool
+	vioTotal     int
 	Rule         string
 	Assumptions  []string
 	Extra        map[string]any
@@ -60,7 +62,10 @@ func NewReport(prop, tier string, seed int64, only int) *Report {
 }
 
 // Skip reports whether case idx is excluded by a replay restriction.
-func (r *Report) Skip(idx int) bool { return r.Only >= 0 && idx != r.Only }
+func (r *Report) Skip(idx int) bool { return r.Only >= 0 && idx != r.Only || r.abort.Load() }
+
+// Abort stops exploring further cases (used once a violation makes further rounds pointless or very slow).
+func (r *Report) Abort() { r.abort.Store(true) }
 
 func (r *Report) Eval() { r.evaluations.Add(1) }
 
@@ -71,6 +76,10 @@ func (r *Report) Violate(idx int, sig, msg string, c any) {
 	r.mu.Lock()
 	defer r.mu.Unlock()
 	r.vioCount[sig]++
+	r.vioTotal++
+	if r.vioTotal >= 25 {
+		r.abort.Store(true)
+	}
 	if r.vioCount[sig] <= 5 {
 		r.violations = append(r.violations, Violation{Sig: sig, Msg: msg, Case: c, Idx: idx})
 	}
